@@ -137,3 +137,37 @@ prop(
         "the FSE table of compressed weights on the decoder side is Zstd.Spec.Fse.{readDescription, buildTable} with max log 6 / max symbol 255; all FSETableError variants are one error class (to be replaced by the shared FSE decoder model)",
     ],
 )
+
+# --- C18 / C19 / C20 ------------------------------------------------------------------------------
+import os as _os
+import io_variants as _io_variants
+
+_TOOLS = _os.path.dirname(_os.path.abspath(__file__))
+
+prop(
+    "C18",
+    level_text="Theorems for every reader/writer script (no bound): the hand-written no_std helpers read_exact, Take::read, write_all and the slice/Vec impls equal the std::io contract (Spec written from the std documentation, validated on every run against the real std::io in the std builds); read_to_end equals it on every script without Interrupted (it differs with Interrupted; no codec path can observe that). The hash feature's footprint is proved on a model with an abstract block coder: frame without hash = frame with hash minus descriptor bit 2 minus the last 4 bytes; decoded bytes, stored checksum and consumed input are independent of the feature; all four compressor-build x decoder-build combinations round-trip. That the four real builds behave alike is OBSERVED (harness built four times, every digest compared), not proved.",
+    engines=[{"name": "io", "bin": _os.path.join(_TOOLS, "io_variants.py")}],
+    extra_builds=_io_variants.build_cmds(),
+    modelled="io_nostd.rs default methods and impls (hand-written mirror, every match arm's shape extracted from the source), the cfg(feature = \"hash\") items of frame_compressor.rs / decode_buffer.rs / frame_decoder.rs (extracted: flag from cfg!, trailer last, bit index on both sides, decoder items only touch the hasher); the compile-time selection of the io module itself is observed by the four builds",
+    assumptions=["readers/writers keep the std::io contract (never report more than requested)", "usize = u64 (Take on a 32-bit target truncates its limit: theorem nostd_take_32bit_differs)", "std's documentation was read in the nightly toolchain's rust-src (stable has no rust-src installed); the std builds run the real stable std::io"],
+)
+
+import cli_engine as _cli_engine
+
+prop(
+    "C19",
+    level_text="The command-line tool is modelled as a decision procedure whose table (default level, level map, order of level check / open / create / library call, levels the library implements, empty-input shortcut) is extracted from cli/src/main.rs and frame_compressor.rs on every run. Proved for EVERY table that passes a decidable well-formedness test, then instantiated with today's source: a run that fails neither panics nor leaves an output file (all level options, missing input, uncreatable output); implemented levels and the absent level round-trip every content given that the library round-trips (C02); the progress wrapper passes reads through unchanged for every reader script. Exit statuses, files on disk and bytes are OBSERVED on the built binary (reference zstd -d as oracle).",
+    engines=[{"name": "cli", "bin": _os.path.join(_TOOLS, "cli_engine.py"), "timeout": 1500}],
+    extra_builds=_cli_engine.build_cmds(),
+    modelled="cli/src/main.rs compress/decompress as a decision procedure (hand-written interpreter over the extracted table), ProgressMonitor::read, default output names (add_extension / file_stem); clap's argument parsing, color_eyre's exit status mapping (Err -> 1, panic -> 101, usage -> 2) and the file system are observed, not modelled",
+    assumptions=["the library round-trips at the implemented levels (C02) — hypothesis hC02 of cli_roundtrip", "exit status 1 = main returned Err, 2 = clap usage error, 101 = panic"],
+)
+
+prop(
+    "C20",
+    level_text="Theorems for every source length, every pattern of short reads, every size estimate and dictionary size, every RNG script, every scoring function and every heap order (no bound): the builder's loops end within fuel 2*|source|+4, no panic site of the model is reached (all divisors non-zero, fastrand range non-empty, at least one segment, no counter underflow), the output is at most dict_size bytes and equals min(|source|, dict_size) on the small path and min(bytes in the pool, dict_size) on the sampled path. The model works on LENGTHS; contents, scoring, hash-map order and fastrand are abstract parameters. Constants and the presence of each guard are extracted from the source on every run. The real function is run on a grid of (length, estimate, dict size, reader fragmentation) with the length compared to the model and the bound/no-panic/deadline checked directly.",
+    engines=[{"name": "dictbuilder", "timeout": 2400}],
+    modelled="create_raw_dict_from_source, compute_epoch_info, Reservoir::fill (both loops), the epoch loop, the pool trimming and the write-out as a hand-written mirror over lengths; std's BufReader (one inner read per refill, bypass for requests >= capacity) and read_to_end/take are modelled from their documentation; estimate_frequency/score_segment (no panic site reachable: a k-mer window exists only inside a sample of at least K bytes) and fastrand are abstract",
+    assumptions=["the reader keeps the std::io contract and does not return errors (an Err from the source is turned into a panic by .expect(\"can read input\") - documented behaviour, outside the property)", "usize = u64", "BufReader behaves as documented"],
+)
